@@ -358,8 +358,17 @@ func (s *sendStream) CloseSend() error {
 	defer s.mu.Unlock()
 	s.closed = true
 	s.r.mu.Lock()
+	id := ""
+	if s.b != nil {
+		id = s.b.id
+	}
 	s.release()
 	s.r.mu.Unlock()
+	// fault kind "closesend": the stream is gone either way, but the call
+	// reports an error (the relay went away first)
+	if a := s.r.fault("closesend", id, 0, 0); a.Fail != nil {
+		return a.Fail
+	}
 	return nil
 }
 
@@ -396,7 +405,13 @@ func (s *recvStream) release() {
 
 // CloseSend implements grpc.ClientStream: on a server-streaming call it does
 // not end the RPC.
-func (s *recvStream) CloseSend() error { return nil }
+func (s *recvStream) CloseSend() error {
+	// fault kind "closerecv": the call reports an error
+	if a := s.r.fault("closerecv", s.id, 0, 0); a.Fail != nil {
+		return a.Fail
+	}
+	return nil
+}
 
 // Recv implements HashMail_RecvStreamClient.
 func (s *recvStream) Recv() (*hashmailrpc.CipherBox, error) {
